@@ -21,6 +21,22 @@ pub struct FordFulkerson {
     bound: Option<Arc<AtomicI32>>,
 }
 
+#[cfg(feature = "verif")]
+impl FordFulkerson {
+    /// (source, target, capacity) of every edge of the residual graph
+    pub fn verif_residual(&self) -> Vec<(NodeID, NodeID, i32)> {
+        let graph = &self.residual_graph;
+        graph
+            .node_range()
+            .flat_map(|u| {
+                graph
+                    .edge_range(u)
+                    .map(move |e| (u, graph.target(e), graph.data(e).capacity))
+            })
+            .collect()
+    }
+}
+
 impl MaxFlow for FordFulkerson {
     fn from_edge_list(
         mut edge_list: Vec<InputEdge<ResidualEdgeData>>,
